@@ -610,6 +610,16 @@ class SyncRun:
                 self.events.append({'e': 'idlecheck', 's': s, 'uids': uids,
                                     'flags': flags, 'mbx': name})
 
+    def unanswered_idle(self) -> None:
+        """after everything has settled: an IDLE that was ended by client input and still has
+        no tagged response (cond NONE fails C16_DoneEndsOk / OtherEndsBad)"""
+        for s in self.sessions:
+            inf = self.inflight.get(s)
+            if inf and inf['cmd'][0] == 'idle' and inf.get('ended_by') \
+                    and not self.w.conns[s].done:
+                self.events.append({'e': 'idleend', 's': s, 'input': inf['ended_by'],
+                                    'cond': 'NONE'})
+
     def cancel(self, s: str) -> None:
         c = self.w.conns[s]
         self.note(e='cancel', s=s, at=c.parked or 'rest')
